@@ -83,6 +83,91 @@ FAMILIES = {
 }
 
 
+# ------------------------------------------------------------------ inheritance scaling families
+# Each returns (source, number of classes, attribute defined on the root class).  The source ends
+# in `x = <Top>()\nx.` ; the queries append an attribute name / prefix (see inherit_queries).
+# Every class defines one method so that completion has to visit every class of the MRO.
+
+def _cls(name, bases, i):
+    head = "class %s(%s):\n" % (name, ", ".join(bases)) if bases else "class %s:\n" % name
+    return head + "    def m_%s(self): return self\n" % name.lower()
+
+
+def inh_chain(n):
+    """C_n(C_{n-1}) ... C_0: n+1 classes"""
+    s = _cls("C0", [], 0)
+    for i in range(1, n + 1):
+        s += _cls("C%d" % i, ["C%d" % (i - 1)], i)
+    return s + "x = C%d()\nx." % n, n + 1, "m_c0"
+
+
+def inh_diamonds(n):
+    """n nested diamonds: C_i(A_i, B_i), A_i(C_{i-1}), B_i(C_{i-1}); 3n+1 classes, 2^n paths"""
+    s = _cls("C0", [], 0)
+    for i in range(1, n + 1):
+        s += _cls("A%d" % i, ["C%d" % (i - 1)], i)
+        s += _cls("B%d" % i, ["C%d" % (i - 1)], i)
+        s += _cls("C%d" % i, ["A%d" % i, "B%d" % i], i)
+    return s + "x = C%d()\nx." % n, 3 * n + 1, "m_c0"
+
+
+def inh_mixin_ladder(n):
+    """L_i(L_{i-1}, M_i) with every mixin M_i(Root) and L_0(Root): 2n+2 classes, Root reachable
+    through n+1 paths"""
+    s = _cls("Root", [], 0) + _cls("L0", ["Root"], 0)
+    for i in range(1, n + 1):
+        s += _cls("M%d" % i, ["Root"], i)
+        s += _cls("L%d" % i, ["L%d" % (i - 1), "M%d" % i], i)
+    return s + "x = L%d()\nx." % n, 2 * n + 2, "m_root"
+
+
+def inh_lattice(n):
+    """two classes per level, each inheriting from both classes of the level below: 2n+1 classes,
+    2^n paths from the top to the root"""
+    s = _cls("R", [], 0)
+    prev = ["R"]
+    for i in range(1, n + 1):
+        s += _cls("X%d" % i, prev, i) + _cls("Y%d" % i, prev, i)
+        prev = ["X%d" % i, "Y%d" % i]
+    s += _cls("Top", prev, 0)
+    return s + "x = Top()\nx.", 2 * n + 2, "m_r"
+
+
+def inh_tree(n):
+    """binary tree of multiple inheritance with n classes: T_i(T_{2i+1}, T_{2i+2})"""
+    s = ""
+    for i in reversed(range(n)):
+        kids = ["T%d" % c for c in (2 * i + 1, 2 * i + 2) if c < n]
+        s += _cls("T%d" % i, kids, i)
+    return s + "x = T0()\nx.", n, "m_t%d" % (n - 1)
+
+
+def inh_shared_mixins(n):
+    """n classes that all list the same n mixins: K_i(K_{i-1}, M_1 .. M_n); 2n+1 classes, n^2 edges"""
+    s = "".join(_cls("M%d" % j, [], j) for j in range(1, n + 1)) + _cls("K0", [], 0)
+    ms = ["M%d" % j for j in range(1, n + 1)]
+    for i in range(1, n + 1):
+        s += _cls("K%d" % i, ["K%d" % (i - 1)] + ms, i)
+    return s + "x = K%d()\nx." % n, 2 * n + 1, "m_k0"
+
+
+INHERIT_FAMILIES = {
+    'inh_chain': inh_chain, 'inh_diamonds': inh_diamonds, 'inh_mixin_ladder': inh_mixin_ladder,
+    'inh_lattice': inh_lattice, 'inh_tree': inh_tree, 'inh_shared_mixins': inh_shared_mixins,
+}
+
+
+def inherit_queries(src, root_attr):
+    """[(query, source, line, column)]: complete after `x.m_`, infer / goto of the attribute that
+    only the last class of the MRO defines"""
+    out = []
+    for q, tail in (('complete', 'm_'), ('infer', root_attr), ('goto', root_attr)):
+        text = src + tail
+        line, col = last_pos(text)
+        out.append((q, text, line, col))
+    return out
+
+
 def last_pos(src):
     lines = src.split('\n')
     return len(lines), len(lines[-1])
